@@ -231,6 +231,10 @@ class Prov:
         path = f["p"]
         raw = f.get("raw", path)
         last = raw.rsplit("::", 1)[-1]
+        if last == "box_assume_init_into_vec_unsafe" and len(t["a"]) == 1:
+            arr = self._vec_macro_array(t["a"][0], depth)
+            if arr is not None:
+                return arr
         args = tuple(self.operand(a, bi, si, depth + 1) for a in t["a"])
         if last in TRANSPARENT_LAST and len(args) == 1:
             return args[0]
@@ -249,6 +253,37 @@ class Prov:
                     if node["k"] == "=" and (node["rv"].get("ref") is not None and node["rv"].get("m")):
                         return ("call", path, args, bi)
         return ("call", path, args)
+
+    def _vec_macro_array(self, op, depth):
+        """`vec![a, b, c]` lowers to Box::new_uninit(); (*ptr).value.. = [a, b, c]; box_assume_init_into_vec_unsafe(box).
+        Return the array term stored through the box's pointer."""
+        pl = op_place(op)
+        if pl is None or "p" in pl:
+            return None
+        box = pl["l"]
+        for _ in range(4):  # follow plain moves back to the new_uninit destination
+            ds = [d for d in self.defs.get(box, []) if d[2] is None]
+            if len(ds) == 1 and ds[0][3]["k"] == "=" and "use" in ds[0][3]["rv"]:
+                src = op_place(ds[0][3]["rv"]["use"])
+                if src is not None and "p" not in src:
+                    box = src["l"]
+                    continue
+            break
+        for local, ds in self.defs.items():
+            for d in ds:
+                node = d[3]
+                if node["k"] != "=" or not d[2] or d[2][0] != "*":
+                    continue
+                if "agg" not in node["rv"] or node["rv"]["agg"]["k"] != "array":
+                    continue
+                # the pointer local must be derived from the box local
+                for pd in self.defs.get(local, []):
+                    n2 = pd[3]
+                    if pd[2] is None and n2["k"] == "=" and "cast" in n2["rv"]:
+                        sp = op_place(n2["rv"]["a"])
+                        if sp is not None and sp["l"] == box:
+                            return self._rvalue(node["rv"], d[0], d[1], depth + 1)
+        return None
 
     def _rvalue(self, rv, bi, si, depth):
         if "use" in rv:
